@@ -40,8 +40,16 @@ struct Pipe {
     read: u64,
 }
 
+thread_local! {
+    /// set when a serviced syscall came back with other status flags than it was entered with
+    static FLAGS_CHANGED: std::cell::Cell<Option<(u64, u64, u64)>> = std::cell::Cell::new(None);
+}
+
 fn sys(ax: &mut Axecutor, rax: u64, rdi: u64, rsi: u64, rdx: u64) -> Call<u64> {
-    call(|| {
+    // the guest's status flags survive a system call (SYSRET gives them back): entered with a known pattern
+    let pattern = [0x8d5u64, 0, 0x1, 0x40, 0x884, 0x11][(rax.wrapping_add(rdi) % 6) as usize];
+    ax.verif_set_rflags(pattern);
+    let r = call(|| {
         ax.reg_write_64(SR::RIP, CODE_AT)?;
         ax.reg_write_64(SR::RAX, rax)?;
         ax.reg_write_64(SR::RDI, rdi)?;
@@ -49,7 +57,14 @@ fn sys(ax: &mut Axecutor, rax: u64, rdi: u64, rsi: u64, rdx: u64) -> Call<u64> {
         ax.reg_write_64(SR::RDX, rdx)?;
         block_on(ax.step())?;
         ax.reg_read_64(SR::RAX)
-    })
+    });
+    if r.is_ok() {
+        let now = ax.verif_rflags();
+        if (now ^ pattern) & 0x8d5 != 0 {
+            FLAGS_CHANGED.with(|f| f.set(Some((rax, pattern, now))));
+        }
+    }
+    r
 }
 
 impl C14 {
@@ -98,6 +113,9 @@ impl C14 {
         let want_pipes = rng.range(1, 4);
         for step in 0..=nops {
             let drain = step == nops;
+            if let Some((nr, before, after)) = FLAGS_CHANGED.with(|f| f.take()) {
+                return fail(col, "syscall-changed-the-status-flags", format!("syscall {} entered with flags {:#x} came back with {:#x}", nr, before, after), &tail);
+            }
             if rng.below(12) == 0 {
                 if let Some(d) = perturb(&mut ax, rng, &Perturb { areas: true, hooks: true, clone: true }) {
                     return fail(col, "neutral-operation-visible", d, &tail);
